@@ -243,6 +243,7 @@ func (w *World) instrWrites(ins ssa.Instruction, fn *ssa.Function) []writeEvent 
 			}
 			ws := w.externalWrites(cv)
 			delete(ws, "$consumed")
+			delete(ws, "$rem")
 			if ws["$big"] && len(c.Args) > 0 {
 				// math/big mutators write the value of their receiver only
 				add([]string{"$big"}, c.Args[0])
